@@ -67,7 +67,7 @@ async def discover(host: str, port: int = GOODWE_UDP_PORT, timeout: int = 1, ret
         # Try the common AA55C07F0102000241 command first and detect inverter type from serial_number
         try:
             logger.debug("Probing inverter at %s:%s.", host, port)
-            response = await DISCOVERY_COMMAND.execute(UdpInverterProtocol(host, port, timeout, retries))
+            response = await DISCOVERY_COMMAND.execute(UdpInverterProtocol(host, port, 0, timeout, retries))
             response = response.response_data()
             model_name = response[5:15].decode("ascii").rstrip()
             serial_number = response[31:47].decode("ascii")
@@ -125,7 +125,7 @@ async def search_inverters() -> bytes:
     logger.debug("Searching inverters by broadcast to port 48899")
     command = ProtocolCommand("WIFIKIT-214028-READ".encode("utf-8"), lambda r: True)
     try:
-        result = await command.execute(UdpInverterProtocol("255.255.255.255", 48899, 1, 0))
+        result = await command.execute(UdpInverterProtocol("255.255.255.255", 48899, 0, 1, 0))
         if result is not None:
             return result.response_data()
         raise InverterError("No response received to broadcast request.")
